@@ -36,9 +36,11 @@ type desc struct {
 	ResSet  bool     `json:"resources_set"`
 	Acc     []string `json:"access"`
 	AccSet  bool     `json:"access_set"`
-	Kinds   []string `json:"handler_kinds"`          // get call auth access new
-	HPat    string   `json:"handler_pattern"`        // pattern the handler is registered on
-	Layout  []hdl    `json:"layout,omitempty"`       // further Handle calls (nested patterns, mounted muxes, root pattern)
+	Kinds   []string `json:"handler_kinds"`                // get call auth access new
+	HPat    string   `json:"handler_pattern"`              // pattern the handler is registered on
+	Layout  []hdl    `json:"layout,omitempty"`             // further Handle calls (nested patterns, mounted muxes, root pattern)
+	Build   []op     `json:"construction_order,omitempty"` // explicit sequence of NewMux / Handle / Mount / Route calls building the mux tree
+	Order   string   `json:"order_name,omitempty"`
 	Restart []phase  `json:"restart,omitempty"`      // further runs of the SAME Service object: Shutdown, reconfigure, Serve on a fresh connection
 	Run     int      `json:"observed_run,omitempty"` // which run of the sequence this case observes (0 = first)
 	Queue   string   `json:"queue"`                  // "default" (= service name), "off", or a group name
@@ -68,8 +70,118 @@ type phase struct {
 	Extra       int      `json:"extra_resetall"`
 }
 
+// op is one mux construction call.  Muxes are numbered: 0 is the service itself, others are created by
+// "newmux" (res.NewMux(Path)) or "route" (parent.Route(Path, fn) with Inner executed inside fn).
+//
+//	handle: muxes[Mux].Handle(Pat, kinds)   mount: muxes[Mux].Mount(Path, muxes[Sub])
+type op struct {
+	Op    string   `json:"op"`
+	Mux   int      `json:"mux"`
+	Sub   int      `json:"sub,omitempty"`
+	Path  string   `json:"path,omitempty"`
+	Pat   string   `json:"pattern,omitempty"`
+	Kinds []string `json:"kinds,omitempty"`
+	Inner []op     `json:"inside_callback,omitempty"`
+}
+
+// builtHandles resolves the full pattern (below the service name) of every Handle call of a construction
+// order; it depends only on the final tree, not on the order of the calls.
+func builtHandles(ops []op) []hdl {
+	type mx struct {
+		parent      int
+		mount, path string
+	}
+	muxes := map[int]*mx{0: {parent: -1}}
+	type hc struct {
+		mux   int
+		pat   string
+		kinds []string
+	}
+	var calls []hc
+	var walk func(ops []op)
+	walk = func(ops []op) {
+		for _, o := range ops {
+			switch o.Op {
+			case "newmux":
+				muxes[o.Mux] = &mx{parent: -1, path: o.Path}
+			case "handle":
+				calls = append(calls, hc{o.Mux, o.Pat, o.Kinds})
+			case "mount":
+				muxes[o.Sub].parent, muxes[o.Sub].mount = o.Mux, o.Path
+			case "route":
+				muxes[o.Sub] = &mx{parent: o.Mux, mount: o.Path}
+				walk(o.Inner)
+			}
+		}
+	}
+	walk(ops)
+	var prefix func(id int) string
+	prefix = func(id int) string {
+		m := muxes[id]
+		if m.parent < 0 {
+			return ""
+		}
+		return merge(prefix(m.parent), merge(m.mount, m.path))
+	}
+	var hs []hdl
+	for _, c := range calls {
+		hs = append(hs, hdl{Pat: merge(prefix(c.mux), c.pat), Kinds: c.kinds})
+	}
+	return hs
+}
+
+func handlerOpts(kinds []string) []res.Option {
+	var opts []res.Option
+	if has(kinds, "get") {
+		opts = append(opts, res.GetResource(func(r res.GetRequest) { r.NotFound() }))
+	}
+	if has(kinds, "call") {
+		opts = append(opts, res.Call("m", func(r res.CallRequest) { r.OK(nil) }))
+	}
+	if has(kinds, "auth") {
+		opts = append(opts, res.Auth("m", func(r res.AuthRequest) { r.OK(nil) }))
+	}
+	if has(kinds, "access") {
+		opts = append(opts, res.Access(func(r res.AccessRequest) { r.AccessGranted() }))
+	}
+	if has(kinds, "new") {
+		opts = append(opts, res.New(func(r res.NewRequest) { r.NotFound() }))
+	}
+	return opts
+}
+
+// runBuild executes a construction order on the service.
+func runBuild(s *res.Service, ops []op) {
+	muxes := map[int]*res.Mux{0: s.Mux}
+	var walk func(ops []op)
+	walk = func(ops []op) {
+		for _, o := range ops {
+			switch o.Op {
+			case "newmux":
+				muxes[o.Mux] = res.NewMux(o.Path)
+			case "handle":
+				muxes[o.Mux].Handle(o.Pat, handlerOpts(o.Kinds)...)
+			case "mount":
+				muxes[o.Mux].Mount(o.Path, muxes[o.Sub])
+			case "route":
+				o := o
+				muxes[o.Mux].Route(o.Path, func(m *res.Mux) {
+					muxes[o.Sub] = m
+					walk(o.Inner)
+				})
+			default:
+				panic("unknown construction op " + o.Op)
+			}
+		}
+	}
+	walk(ops)
+}
+
 // handles returns every Handle call of the configuration.
 func (d desc) handles() []hdl {
+	if len(d.Build) > 0 {
+		return append(builtHandles(d.Build), d.Layout...)
+	}
 	var hs []hdl
 	if len(d.Kinds) > 0 {
 		hs = append(hs, hdl{Pat: d.HPat, Kinds: d.Kinds})
@@ -192,7 +304,12 @@ func buildService(d desc, lg *recLogger) *res.Service {
 	s.SetLogger(lg)
 	s.SetWorkerCount(1)
 	s.SetInChannelSize(4)
-	registerHandles(s, d.handles())
+	if len(d.Build) > 0 {
+		runBuild(s, d.Build)
+		registerHandles(s, d.Layout)
+	} else {
+		registerHandles(s, d.handles())
+	}
 	setOwned(s, d.Res, d.ResSet, d.Acc, d.AccSet)
 	setQueue(s, d.Queue)
 	return s
@@ -802,6 +919,9 @@ func main() {
 		full.Run = d.Run
 		c := Case{Term: caseTerm(d, ob), Desc: full}
 		dist[kind]++
+		if len(full.Build) > 0 {
+			c.Tags = append(c.Tags, "construction-order")
+		}
 		if len(full.Restart) > 0 {
 			c.Tags = append(c.Tags, "restart", fmt.Sprintf("run-%d", d.Run))
 			if d.Run > 0 {
@@ -1057,6 +1177,75 @@ func main() {
 					add("handler-layout", d)
 				}
 				li++
+			}
+		}
+		// (i) construction orders: the same final mux tree (a handler two or three mounted muxes deep,
+		// optionally another handler on the outer mux or on the service) built by different sequences of
+		// NewMux / Handle / Mount / Route calls; the expectation depends on the final pattern set only
+		nm := func(id int, path string) op { return op{Op: "newmux", Mux: id, Path: path} }
+		hd := func(id int, pat string, k []string) op { return op{Op: "handle", Mux: id, Pat: pat, Kinds: k} }
+		mt := func(parent int, path string, sub int) op { return op{Op: "mount", Mux: parent, Path: path, Sub: sub} }
+		rt := func(parent int, path string, sub int, inner ...op) op {
+			return op{Op: "route", Mux: parent, Path: path, Sub: sub, Inner: inner}
+		}
+		deepKinds := [][]string{{"get"}, {"access"}, {"get", "access"}, {"call", "auth"}}
+		bi := 0
+		for _, k := range deepKinds {
+			x := func(id int) op { return hd(id, "x", k) }
+			orders := map[string][]op{
+				// depth 2: service <- a <- b, handler b's "x" (full pattern a.b.x)
+				"d2 outer mounted first, then inner (with its handler) mounted into it": {nm(1, ""), nm(2, ""), x(2), mt(0, "a", 1), mt(1, "b", 2)},
+				"d2 innermost first":                                    {nm(1, ""), nm(2, ""), x(2), mt(1, "b", 2), mt(0, "a", 1)},
+				"d2 handler after both mounts":                          {nm(1, ""), nm(2, ""), mt(0, "a", 1), mt(1, "b", 2), x(2)},
+				"d2 inner mounted, handler, outer mounted":              {nm(1, ""), nm(2, ""), mt(1, "b", 2), x(2), mt(0, "a", 1)},
+				"d2 outer mounted, handler, inner mounted":              {nm(1, ""), nm(2, ""), mt(0, "a", 1), x(2), mt(1, "b", 2)},
+				"d2 through the service with pattern a.b.x":             {nm(1, ""), mt(0, "a", 1), hd(0, "a.b.x", k)},
+				"d2 through the outer mux with pattern b.x":             {nm(1, ""), nm(2, ""), mt(0, "a", 1), mt(1, "b", 2), hd(1, "b.x", k)},
+				"d2 through the outer mux before it is mounted":         {nm(1, ""), nm(2, ""), mt(1, "b", 2), hd(1, "b.x", k), mt(0, "a", 1)},
+				"d2 nested Route callbacks":                             {rt(0, "a", 1, rt(1, "b", 2, x(2)))},
+				"d2 Route outer, then Route inner on the mounted outer": {rt(0, "a", 1), rt(1, "b", 2, x(2))},
+				"d2 Route outer, then Mount inner with handler":         {rt(0, "a", 1), nm(2, ""), x(2), mt(1, "b", 2)},
+				"d2 Route both, handler afterwards":                     {rt(0, "a", 1), rt(1, "b", 2), x(2)},
+				"d2 mux paths instead of mount paths, outer first":      {nm(1, "a"), nm(2, "b"), x(2), mt(0, "", 1), mt(1, "", 2)},
+				"d2 mux paths instead of mount paths, inner first":      {nm(1, "a"), nm(2, "b"), x(2), mt(1, "", 2), mt(0, "", 1)},
+				// depth 3: service <- a <- b <- c, handler c's "x" (full pattern a.b.c.x)
+				"d3 outermost first":             {nm(1, ""), nm(2, ""), nm(3, ""), x(3), mt(0, "a", 1), mt(1, "b", 2), mt(2, "c", 3)},
+				"d3 innermost first":             {nm(1, ""), nm(2, ""), nm(3, ""), x(3), mt(2, "c", 3), mt(1, "b", 2), mt(0, "a", 1)},
+				"d3 inner pair, outer, middle":   {nm(1, ""), nm(2, ""), nm(3, ""), x(3), mt(2, "c", 3), mt(0, "a", 1), mt(1, "b", 2)},
+				"d3 middle pair, inner, outer":   {nm(1, ""), nm(2, ""), nm(3, ""), x(3), mt(1, "b", 2), mt(2, "c", 3), mt(0, "a", 1)},
+				"d3 middle pair, outer, inner":   {nm(1, ""), nm(2, ""), nm(3, ""), x(3), mt(1, "b", 2), mt(0, "a", 1), mt(2, "c", 3)},
+				"d3 all mounts, then handler":    {nm(1, ""), nm(2, ""), nm(3, ""), mt(0, "a", 1), mt(1, "b", 2), mt(2, "c", 3), x(3)},
+				"d3 Route chain outermost first": {rt(0, "a", 1), rt(1, "b", 2), rt(2, "c", 3, x(3))},
+				"d3 nested Route callbacks":      {rt(0, "a", 1, rt(1, "b", 2, rt(2, "c", 3, x(3))))},
+			}
+			var keys []string
+			for key := range orders {
+				keys = append(keys, key)
+			}
+			sort.Strings(keys)
+			for _, key := range keys {
+				ops := orders[key]
+				// 0: nothing else registered; 1: the service has a handler of the other kind class;
+				// 2: the outer mux gets a handler without methods before everything else
+				for variant := 0; variant < 3; variant++ {
+					d := desc{Name: names[bi%len(names)], Queue: queues[bi%len(queues)], Extra: bi % 2, Order: key}
+					d.Build = append([]op{}, ops...)
+					switch variant {
+					case 1:
+						other := []string{"access"}
+						if has(k, "access") {
+							other = []string{"call"}
+						}
+						d.Build = append([]op{hd(0, "z", other)}, d.Build...)
+					case 2:
+						if ops[0].Op != "newmux" {
+							continue
+						}
+						d.Build = append([]op{ops[0], hd(1, "y", nil)}, ops[1:]...)
+					}
+					bi++
+					add("construction-order", d)
+				}
 			}
 		}
 		// (h) stop/start cycles of ONE Service object: run with configuration A, Shutdown, reconfigure to B
